@@ -40,8 +40,11 @@ ENCODED = ["twisted.web._newclient:HTTPParser.lineReceived", "twisted.web._newcl
            "twisted.web.http_headers:Headers.addRawHeader", "twisted.web.http_headers:Headers.getRawHeaders"]
 BOUNDS = {"quick": {"nb": 2}, "thorough": {"nb": 3}}
 B = {}
-BOUNDS_TEXT = ("8 response shapes (GET 200 Content-Length / chunked / close-delimited / 100-then-200; GET 204; GET 304; "
-               "HEAD 200 with Content-Length; HEAD 200 chunked), body of 0 or nb (thorough: 0..nb) symbolic bytes (+ one symbolic byte in a "
+BOUNDS_TEXT = ("20 response shapes (GET 200 Content-Length / chunked / close-delimited / 100-then-200; GET 204; GET 304; "
+               "HEAD 200 with Content-Length; HEAD 200 chunked; each of the three GET 200 framings preceded by an interim "
+               "100/103 response carrying Content-Length: 0 / Content-Length: 7 / Transfer-Encoding: chunked / "
+               "Connection: close and a custom header; quick tier: interim shapes get the k family at protocol level "
+               "and the split family at parser level), body of 0 or nb (thorough: 0..nb) symbolic bytes (+ one symbolic byte in a "
                "header value), stream <= 90 bytes; family `k`: connection lost after every number k of bytes, one "
                "delivery; family `split`: whole stream, two deliveries at every split index; body protocol attached "
                "when the response arrives or after the connection is gone; parser level and protocol level")
@@ -131,6 +134,19 @@ SHAPES = [
     ("HEAD", "", "HTTP/1.0 200 OK", "chunked", False),
 ]
 CODES = [200, 200, 200, 200, 204, 304, 200, 200]
+# interim (1xx) responses that carry headers of their own, in front of every final framing: nothing of an
+# interim response may influence the framing, the headers or the body of the final response
+INTERIMS = [
+    "HTTP/1.1 100 Continue\r\nContent-Length: 0\r\nX-I: 1\r\n\r\n",
+    "HTTP/1.1 100 Continue\r\nContent-Length: 7\r\n\r\n",
+    "HTTP/1.1 103 Early Hints\r\nTransfer-Encoding: chunked\r\nX-I: 1\r\n\r\n",
+    "HTTP/1.1 100 Continue\r\nConnection: close\r\nX-I: 1\r\n\r\n",
+]
+NBASE = len(SHAPES)
+for _fr in ("cl", "chunked", "close"):
+    for _it in INTERIMS:
+        SHAPES.append(("GET", _it, "HTTP/1.1 200 OK", _fr, True))
+        CODES.append(200)
 
 
 def _build(shape, body, hv):
@@ -253,6 +269,10 @@ def _expect(shape, body, hv, k, split, resp, fails, bp, fin, level):
         return False
     got = r.headers.getRawHeaders(b("x-a"))
     if got is None or len(got) != 1:
+        return False
+    # only the final response's own entity headers are visible (Content-Length is one for HEAD); nothing
+    # of an interim response is
+    if r.headers.hasHeader(b("x-i")) or len(list(r.headers.getAllRawHeaders())) != (2 if shape == 6 else 1):
         return False
     if hv == "\r":
         # RFC 9112 2.2: a bare CR in a field value is invalid or is replaced by SP
@@ -400,12 +420,12 @@ def _args(shape, body, hv, k, split):
 
 def parser(shape: int, body: str, hv: str, k: int, split: int, late: bool) -> bool:
     """
-    pre: 0 <= shape < 8 and len(body) <= B['nb'] and len(hv) == 1
+    pre: 0 <= shape < len(SHAPES) and len(body) <= B['nb'] and len(hv) == 1
     pre: all(ord(c) < 256 for c in body + hv) and hv != "\\n"
     pre: -1 <= k and 0 <= split
     post: _
     """
-    sh = _pos(7, shape)
+    sh = _pos(len(SHAPES) - 1, shape)
     body, hv = _chars(body), _chars(hv)
     kk, sp = _args(sh, body, hv, k, split)
     resp, fails, bp, fin = _drive_parser(sh, body, hv, kk, sp, late)
@@ -416,12 +436,12 @@ def parser(shape: int, body: str, hv: str, k: int, split: int, late: bool) -> bo
 
 def proto(shape: int, body: str, hv: str, k: int, split: int, late: bool, persistent: bool) -> bool:
     """
-    pre: 0 <= shape < 8 and len(body) <= B['nb'] and len(hv) == 1
+    pre: 0 <= shape < len(SHAPES) and len(body) <= B['nb'] and len(hv) == 1
     pre: all(ord(c) < 256 for c in body + hv) and hv != "\\n"
     pre: -1 <= k and 0 <= split
     post: _
     """
-    sh = _pos(7, shape)
+    sh = _pos(len(SHAPES) - 1, shape)
     body, hv = _chars(body), _chars(hv)
     kk, sp = _args(sh, body, hv, k, split)
     resp, fails, bp, tr, qc, pr = _drive_proto(sh, body, hv, kk, sp, late, persistent)
@@ -438,22 +458,37 @@ def proto(shape: int, body: str, hv: str, k: int, split: int, late: bool, persis
     return pr.state == "CONNECTION_LOST"
 
 
+def _shards_for(hname):
+    def shards(tier):
+        out = []
+        nb = BOUNDS[tier]["nb"]
+        quick = tier == "quick"
+        for s in range(len(SHAPES)):
+            if quick and s == 3:
+                continue     # subsumed by the interim-with-headers shapes (kept in the thorough tier)
+            interim = s >= NBASE
+            lens = [nb] if (s >= 4) else ([0, nb] if quick else list(range(0, nb + 1)))
+            for n in lens:
+                fam_k = ("shape == %d" % s, "len(body) == %d" % n, "split == 0")
+                fam_split = ("shape == %d" % s, "len(body) == %d" % n, "k == -1", "split >= 1")
+                # quick tier, interim shapes: truncation family at protocol level, split family at parser level
+                if not (quick and interim and hname == "parser"):
+                    out.append(fam_k)
+                if not (quick and interim and hname == "proto"):
+                    out.append(fam_split)
+                if not quick:   # truncation combined with a split in the middle of what arrived
+                    out.append(("shape == %d" % s, "len(body) == %d" % n, "k >= 2", "split * 2 == k"))
+        return out
+    return shards
+
+
 def _shards(tier):
-    out = []
-    nb = BOUNDS[tier]["nb"]
-    for s in range(len(SHAPES)):
-        lens = [nb] if s >= 4 else ([0, nb] if tier == "quick" else list(range(0, nb + 1)))
-        for n in lens:
-            out.append(("shape == %d" % s, "len(body) == %d" % n, "split == 0"))            # family k
-            out.append(("shape == %d" % s, "len(body) == %d" % n, "k == -1", "split >= 1"))  # family split
-            if tier == "thorough":   # truncation combined with a split in the middle of what arrived
-                out.append(("shape == %d" % s, "len(body) == %d" % n, "k >= 2", "split * 2 == k"))
-    return out
+    return _shards_for("all")(tier)
 
 
 HARNESSES = [
-    H(parser, shards=_shards, timeout={"quick": 200, "thorough": 1500}),
-    H(proto, shards=_shards, timeout={"quick": 200, "thorough": 1500}),
+    H(parser, shards=_shards_for("parser"), timeout={"quick": 200, "thorough": 1500}),
+    H(proto, shards=_shards_for("proto"), timeout={"quick": 200, "thorough": 1500}),
 ]
 
 VECTORS = {
@@ -462,11 +497,16 @@ VECTORS = {
                (2, "zz", "\t", -1, 33, False), (2, "", "x", 10, 0, False), (3, "q", "x", -1, 24, False),
                (3, "q", "x", 27, 0, True), (4, "XY", "x", -1, 0, False), (5, "XY", "x", -1, 40, True),
                (6, "XY", "x", -1, 0, False), (7, "XY", "x", -1, 45, False), (0, "hi", "x", 0, 0, False),
-               (0, "hi", "\r", -1, 0, False)],
+               (0, "hi", "\r", -1, 0, False), (8, "hi", "x", -1, 0, False), (9, "hi", "x", -1, 60, True),
+               (10, "hi", "x", -1, 0, False), (13, "hi", "x", -1, 70, False), (16, "hi", "x", -1, 0, False),
+               (18, "hi", "x", -1, 66, False), (19, "", "x", -1, 0, True), (17, "hi", "x", 80, 0, False)],
     "proto": [(0, "hi", "x", -1, 0, False, True), (0, "hi", "x", 30, 0, True, False), (1, "ab", "x", -1, 49, False, True),
               (1, "ab", "x", 55, 0, False, True), (2, "zz", "x", -1, 5, True, True), (3, "q", "x", -1, 25, False, False),
               (4, "XY", "x", -1, 0, False, True), (5, "XY", "x", -1, 1, True, True), (6, "XY", "x", -1, 0, False, False),
-              (7, "XY", "x", -1, 44, False, True), (0, "hi", "x", 0, 0, False, True), (2, "", "x", 17, 0, False, True)],
+              (7, "XY", "x", -1, 44, False, True), (0, "hi", "x", 0, 0, False, True), (2, "", "x", 17, 0, False, True),
+              (8, "hi", "x", -1, 0, False, True), (9, "hi", "x", -1, 0, False, True), (11, "hi", "x", -1, 0, False, True),
+              (12, "hi", "x", -1, 61, False, True), (15, "hi", "x", -1, 0, True, True), (16, "hi", "x", -1, 0, False, True),
+              (17, "hi", "x", 85, 0, False, False), (19, "hi", "x", -1, 30, False, True)],
 }
 
 
